@@ -28,6 +28,11 @@ TABLES = [
     {1: "z", 2: "Z", 3: "[", 4: "]", 5: "中", 6: "("},      # (none of the characters of the reserved name is used)
     {1: "q", 2: "Q", 3: "'", 4: "\\", 5: "ö", 6: "$"},
     {1: "i", 2: "I", 3: '"', 4: "^", 5: "İ", 6: "|"},
+    # characters at and beyond the end of the basic plane (a range scan or a UTF-16 comparison treats them differently)
+    {1: "ω", 2: "Ω", 3: "\U0001F600", 4: "\uffff", 5: "\U00010000", 6: "\ufffd"},
+    # control characters: a NUL (C strings end there), DEL, a tab (no line break: the regular expressions of the scripts are written
+    # with . and $, which treat a line break specially by their own definition)
+    {1: "j", 2: "J", 3: "\x00", 4: "\x01", 5: "\x7f", 6: "\t"},
 ]
 CH = dict(TABLES[0])
 CH[7] = "Pyro.NameServer"
